@@ -50,6 +50,11 @@ SELECT = {"filter": "seq", "take_while": "seq", "retain": "seq", "find": "opt", 
 UNWRAP = {"unwrap", "expect", "unwrap_unchecked", "unwrap_or_else", "unwrap_or"}
 GROW = {"push", "push_back", "push_front", "insert", "extend", "append", "push_str", "extend_from_slice"}
 PRIMS = {"only_child", "is_rule", "all_children", "to_pos", "to_keyword", "to_ident"}
+REORDER = {"sort", "sort_by", "sort_by_key", "sort_unstable", "sort_unstable_by", "sort_unstable_by_key", "sort_by_cached_key", "reverse", "rev",
+           "dedup", "dedup_by", "dedup_by_key", "swap", "swap_remove", "rotate_left", "rotate_right", "sorted", "sorted_by", "sorted_by_key",
+           "shuffle", "unique", "unique_by"}
+ORDER_FREE = {"find", "rfind", "next_if", "len", "is_empty", "count", "any", "all", "contains", "max_by_key", "min_by_key", "max_by", "min_by",
+              "position", "contains_key", "get"}
 LEAF_READS = {"to_pos", "to_ident", "to_keyword", "as_str", "line_col", "as_span", "get_input", "to_string"}
 
 
@@ -153,9 +158,9 @@ def has_pair_ty(t):
 
 # ---------------------------------------------------------------------------------------------------------- values
 class V:
-    __slots__ = ("kind", "m", "leaf", "pos", "elems", "node", "of", "fuzzy")
+    __slots__ = ("kind", "m", "leaf", "pos", "elems", "node", "of", "fuzzy", "ops")
 
-    def __init__(self, kind, m=None, leaf=E, pos=None, elems=None, node=None, of=None, fuzzy=False):
+    def __init__(self, kind, m=None, leaf=E, pos=None, elems=None, node=None, of=None, fuzzy=False, ops=E):
         self.kind = kind
         self.m = m or {}
         self.leaf = leaf
@@ -164,6 +169,7 @@ class V:
         self.node = node
         self.of = of          # ruleof / text: the local the pair lives in
         self.fuzzy = fuzzy
+        self.ops = ops        # order-disturbing operations (sort, reverse, dedup, hashed collection) the value went through
 
     @property
     def rules(self):
@@ -172,7 +178,7 @@ class V:
     def sig(self):
         return (self.kind, tuple(sorted((r, tuple(sorted(a))) for r, a in self.m.items())), tuple(sorted(self.leaf)), self.fuzzy,
                 tuple(e.sig() if e is not None else None for e in self.elems) if self.elems is not None else None,
-                (self.pos[1], self.pos[0].sig()) if self.pos else None)
+                (self.pos[1], self.pos[0].sig()) if self.pos else None, tuple(sorted(self.ops)))
 
     def __repr__(self):
         return "V(%s %s%s%s)" % (self.kind, sorted(self.m), " leaf=%s" % sorted(self.leaf) if self.leaf else "", " fuzzy" if self.fuzzy else "")
@@ -207,15 +213,35 @@ def prov(v):
     return v.m, v.leaf, v.fuzzy
 
 
+def ops_of(v):
+    if v is None:
+        return E
+    if v.kind == "tuple":
+        out = v.ops
+        for e in v.elems:
+            out = out | ops_of(e)
+        return out
+    return v.ops
+
+
+def with_ops(v, ops):
+    """v, having gone through the operations `ops` as well"""
+    if not ops or (v is not None and ops <= v.ops):
+        return v
+    if v is None:
+        return V("val", ops=frozenset(ops))
+    return V(v.kind, v.m, v.leaf, v.pos, v.elems, v.node, v.of, v.fuzzy, v.ops | ops)
+
+
 def mkval(*vs, **kw):
     """a plain value computed from the given values"""
-    m, leaf, fz = {}, E, kw.get("fuzzy", False)
+    m, leaf, fz, ops = {}, E, kw.get("fuzzy", False), E
     for v in vs:
         a, b, c = prov(v)
-        m, leaf, fz = m_join(m, a), leaf | b, fz or c
-    if not m and not fz:
+        m, leaf, fz, ops = m_join(m, a), leaf | b, fz or c, ops | ops_of(v)
+    if not m and not fz and not ops:
         return None
-    return V("val", m, leaf, fuzzy=fz)
+    return V("val", m, leaf, fuzzy=fz, ops=ops)
 
 
 def join(a, b):
@@ -229,7 +255,7 @@ def join(a, b):
         k = a.kind
         if k == "tuple":
             if len(a.elems) == len(b.elems):
-                return V("tuple", elems=[join(x, y) for x, y in zip(a.elems, b.elems)], fuzzy=a.fuzzy or b.fuzzy)
+                return V("tuple", elems=[join(x, y) for x, y in zip(a.elems, b.elems)], fuzzy=a.fuzzy or b.fuzzy, ops=a.ops | b.ops)
             return mkval(a, b, fuzzy=True)
         if k in ("closure", "fn"):
             return a
@@ -238,11 +264,11 @@ def join(a, b):
             # the children from index k on of either parent
             pos = a.pos if a.pos[0] is b.pos[0] else (join(a.pos[0], b.pos[0]), a.pos[1])
         of = a.of if a.of == b.of else None
-        return V(k, m_join(a.m, b.m), a.leaf | b.leaf, pos=pos, of=of, fuzzy=a.fuzzy or b.fuzzy)
+        return V(k, m_join(a.m, b.m), a.leaf | b.leaf, pos=pos, of=of, fuzzy=a.fuzzy or b.fuzzy, ops=a.ops | b.ops)
     if a.kind in PAIRLIKE and b.kind in PAIRLIKE:
         if {a.kind, b.kind} == {"pair", "opt"}:
-            return V("opt", m_join(a.m, b.m), fuzzy=a.fuzzy or b.fuzzy)
-        return V("seq", m_join(a.m, b.m), fuzzy=True)
+            return V("opt", m_join(a.m, b.m), fuzzy=a.fuzzy or b.fuzzy, ops=a.ops | b.ops)
+        return V("seq", m_join(a.m, b.m), fuzzy=True, ops=a.ops | b.ops)
     if a.kind in ("closure", "fn") or b.kind in ("closure", "fn"):
         return a if a.kind in ("closure", "fn") else b
     # an empty Option joined with a plain value (`Some(x.to_ident())` / `None`): no precision is lost
@@ -252,7 +278,7 @@ def join(a, b):
     for v in (a, b):
         x, y, z = prov(v)
         m, leaf, fz = m_join(m, x), leaf | y, fz or z
-    return V("val", m, leaf, fuzzy=fz)
+    return V("val", m, leaf, fuzzy=fz, ops=ops_of(a) | ops_of(b))
 
 
 def narrowed(v, rs, keep=True):
@@ -276,6 +302,21 @@ class BuilderAI:
                 continue        # the PairExt primitives are modelled, not analysed
             if p.startswith(B) or on_pair or any("pest::iterators" in (t or "") for t in f.sig_inputs):
                 self.fns[p] = f
+        # the parse entry points: functions of the crate from which `Parser::parse(Rule::X, ..)` is reached; they are evaluated like
+        # the builders (their parameters are unknown), so that the pairs flow into the document builders however the call is spelled
+        self.roots = set()
+        parsers = {p for p, f in P.fns.items() if p.startswith(CRATE + "::") and p not in self.fns and not f.derived and "::tests::" not in p
+                   and f.kind in ("Fn", "AssocFn")
+                   and any(x.get("k") == "Call" and (call_name(x) or "").endswith("::parse") and PAIRS_TY in _ty(x) for x in f.walk())}
+        for _ in range(4):
+            more = {p for p, f in P.fns.items() if p.startswith(CRATE + "::") and p not in self.fns and p not in parsers and not f.derived
+                    and "::tests::" not in p and f.kind in ("Fn", "AssocFn") and (P.callees_of(f)[0] & parsers)}
+            if not more:
+                break
+            parsers |= more
+        for p in parsers:
+            self.fns[p] = P.fns[p]
+            self.roots.add(p)
         self.pvals = {p: [None] * len(f.params) for p, f in self.fns.items()}   # joined argument values, per position
         self.rets = {}                                          # joined return values
         self.called = set()                                     # functions with at least one call site seen
@@ -346,6 +387,8 @@ class BuilderAI:
         """functions with a pair-typed parameter for which no call site supplied a rule set, or with no call site at all"""
         out = []
         for p, f in self.fns.items():
+            if p in self.roots:
+                continue
             if f.params and p not in self.called:
                 out.append(p)
                 continue
@@ -734,6 +777,15 @@ class BuilderAI:
         return out
 
     @staticmethod
+    def _narrow(env, l, nv):
+        """the pair in local l is now nv: what was read from that very pair before (its text, its rule, its position) narrows with it"""
+        env[l] = nv
+        keep = nv.rules
+        for k2, w in list(env.items()):
+            if w is not None and w is not nv and w.of == l and w.kind in ("text", "ruleof", "val") and not (w.rules <= keep):
+                env[k2] = V(w.kind, {r: a for r, a in w.m.items() if r in keep}, w.leaf & keep, of=l, fuzzy=w.fuzzy or nv.fuzzy)
+
+    @staticmethod
     def _fuzz(env, locals_):
         for l in locals_:
             v = env.get(l)
@@ -775,7 +827,8 @@ class BuilderAI:
             rs = rules_in_pat(c["pat"])
             t, e = dict(env), dict(env)
             if l is not None and rs and not any(x.get("k") == "Binding" for x in subnodes(c["pat"])):
-                t[l], e[l] = narrowed(v, rs), narrowed(v, rs, False)
+                self._narrow(t, l, narrowed(v, rs))
+                self._narrow(e, l, narrowed(v, rs, False))
                 return t, e
             val = self._ev(c["init"], env)
             t, e = dict(env), dict(env)
@@ -789,7 +842,8 @@ class BuilderAI:
         if tst is not None:
             l, v, yes = tst
             t, e = dict(env), dict(env)
-            t[l], e[l] = narrowed(v, yes), narrowed(v, yes, False)
+            self._narrow(t, l, narrowed(v, yes))
+            self._narrow(e, l, narrowed(v, yes, False))
             return t, e
         fz = self._mentions_pair(c, env)
         self._ev(c0, env)
@@ -865,8 +919,10 @@ class BuilderAI:
                 vals.append(v)
                 if adt.startswith("nitrogql_ast::"):
                     m, leaf, fz = prov(v)
-                    rec = self.fills.setdefault((adt, fld["name"]), {"m": {}, "leaf": E, "fuzzy": False, "fns": set(), "sites": 0})
+                    rec = self.fills.setdefault((adt, fld["name"]), {"m": {}, "leaf": E, "fuzzy": False, "fns": set(), "sites": 0, "ops": {}})
                     rec["m"], rec["leaf"], rec["fuzzy"] = m_join(rec["m"], m), rec["leaf"] | leaf, rec["fuzzy"] or fz
+                    for op in ops_of(v):
+                        rec["ops"].setdefault(op, "%s:%d" % (self.cur.file, n["s"][0]))
                     rec["fns"].add(self.cur.path)
                     rec["sites"] += 1
             if "base" in n and isinstance(n["base"], dict):
@@ -934,7 +990,7 @@ class BuilderAI:
         if l is not None and rs:
             if is_panic(s["els"]):
                 self._guard_ob(s, l, v, v.rules - rs, "`let %s = as_rule() else panic`" % "|".join(sorted(rs)))
-            env[l] = narrowed(v, rs)
+            self._narrow(env, l, narrowed(v, rs))
 
     def _ev_if(self, n, env):
         c = n["cond"]
@@ -1014,7 +1070,7 @@ class BuilderAI:
                 reach = (v.rules & rs) - seen if rs else v.rules - seen
                 seen |= reach
                 e2 = dict(env)
-                e2[l] = narrowed(v, reach)
+                self._narrow(e2, l, narrowed(v, reach))
                 if not rs:
                     self._bind(arm["pat"], V("ruleof", e2[l].m, of=l, fuzzy=v.fuzzy), e2)
                 dv = diverges(arm["body"])
@@ -1246,6 +1302,45 @@ class BuilderAI:
 
     def _ev_method(self, n, m, recv, args, env):
         rv = self._ev(recv, env)
+        out = self._ev_method1(n, m, recv, rv, args, env)
+        ops = ops_of(rv)
+        if m in ELEM or m in ORDER_FREE:
+            ops = E             # one element / a count: the order of the collection it came from no longer matters
+        rl = peel(recv)
+        op = self._reorder_op(n, m, args, rv)
+        if op:
+            if op == "rev" and "rev" in ops:
+                ops = ops - {"rev"}         # reversed twice
+                out = V(out.kind, out.m, out.leaf, out.pos, out.elems, out.node, out.of, out.fuzzy, out.ops - {"rev"}) if out is not None else None
+            else:
+                ops = ops | {op}
+            if rl.get("k") == "Path" and "local" in rl and _ty(n) in ("()", ""):
+                # in place: the local itself is re-ordered
+                env[rl["local"]] = with_ops(env.get(rl["local"]), frozenset({op}))
+                return out
+        return with_ops(out, ops) if (out is not None or _ty(n) not in ("()", "")) else out
+
+    @staticmethod
+    def _reorder_op(n, m, args, rv):
+        """the name of the order-disturbing operation a method call performs on a collection / iterator, if any"""
+        if m in REORDER:
+            if m.startswith("sort") and args and args[-1].get("k") == "Closure":
+                # sorting by the position in the text restores the text order
+                body = args[-1]["body"]
+                if any((x.get("k") == "Field" and x.get("field") in ("position", "pos")) or
+                       (x.get("k") == "MethodCall" and x["method"] in ("to_pos", "line_col", "position", "pos")) for x in subnodes(body)):
+                    return None
+            return m
+        t = _ty(n)
+        if m in ("collect", "from_iter", "into_group_map", "into_grouping_map") and any(w in t for w in ("HashMap<", "HashSet<", "BTreeMap<", "BTreeSet<")):
+            return "collect into " + t.split("<")[0].split("::")[-1]
+        if m == "insert" and len(args) == 2 and lit_value(args[0]) in ("0", 0) and "Vec" in (n.get("recv_ty") or ""):
+            return "insert(0, ..)"
+        if m == "push_front":
+            return "push_front"
+        return None
+
+    def _ev_method1(self, n, m, recv, rv, args, env):
         if call_name(n) in self.fns:
             # a builder written as a method
             vals = [self._ev(a, env) for a in args]
@@ -1319,6 +1414,8 @@ class BuilderAI:
                        and env.get(peel(a)["local"]).kind in ("closure", "fn"))]
         if fn_args:
             elem = self._elem(rv)
+            if rv is not None and rv.kind == "seq" and _ty(recv).startswith(("core::result::Result<", "core::option::Option<")):
+                elem = V("seq", rv.m, fuzzy=rv.fuzzy)       # Result<Pairs>::map(f): f receives the whole sequence
             fids = {id(a) for a in fn_args}
             others = [self._ev(a, env) for a in args if id(a) not in fids]
             acc = mkval(*others)
@@ -1425,7 +1522,7 @@ class BuilderAI:
             return V("text", S.m, S.rules, of=rlocal, fuzzy=S.fuzzy)
         if m in LEAF_READS:
             if S is not None:
-                return V("val", S.m, S.rules, fuzzy=S.fuzzy)
+                return V("val", S.m, S.rules, of=rlocal, fuzzy=S.fuzzy)
             mm, leaf, fz = prov(rv)
             return V("val", mm, frozenset(mm), fuzzy=True) if mm else None
         if m in ("clone", "to_owned", "borrow", "as_ref"):
@@ -1460,10 +1557,11 @@ class BuilderAI:
             return mkval(*vals)
         last = c.split("::")[-1]
         # RawParser::parse(Rule::X, text)
-        if last == "parse" and args and rule_of_path(peel(args[0])) and PAIRS_TY in _ty(n):
+        if last == "parse" and args and PAIRS_TY in _ty(n):
             for a in args[1:]:
                 self._ev(a, env)
-            return V("seq", {rule_of_path(peel(args[0])): E})
+            r = self._rule_const(args[0], env)
+            return V("seq", {r: E}) if r else None
         if c in self.fns:
             vals = [self._ev(a, env) for a in args]
             self._out_params(args, vals, env)
